@@ -189,19 +189,61 @@ class Checker:
 
     def target_update(self, E, kind, net, target, tau=None):
         self.event(E, "target_update", kind=kind, net=net, target=target, tau=tau)
-        if "C06" in self.kinds:
-            if net is target:
-                E.st.fail(f"target.disjoint[{_nm(target)}]", "target network is the online network object")
-            else:
-                E.st.ok(f"target.disjoint[{_nm(target)}]")
-            if self.cfg.pairs is not None:
-                ok = any(net is E.shared.roles.get(a) and target is E.shared.roles.get(b) for a, b in self.cfg.pairs)
-                # roles are resolved lazily: compare by registered names
-                pn, tn = _nm(net), _nm(target)
-                if (pn, tn) in self.cfg.pair_names(E):
-                    E.st.ok(f"target.update_args_online_then_target[{tn}]")
-                else:
-                    E.st.fail(f"target.update_args_online_then_target[{tn}]", f"update({pn} -> {tn}) is not a documented online/target pair")
+        if "C06" not in self.kinds:
+            return
+        env = self.env(E)
+        role = self.role_of(E, net)
+        tn = f"target_of[{role}]"
+        if net is target:
+            E.st.fail(f"target.disjoint_storage[{role}]", "target network is the online network object")
+        else:
+            E.st.ok(f"target.disjoint_storage[{role}]")
+        doc = (self.cfg.cadence or {}).get(role)
+        if doc is None:
+            E.st.fail(f"target.only_documented_targets_change[{role}]", f"undocumented target update from {_nm(net)} into {_nm(target)}")
+            return
+        want_target = E.st.ghost.get("targets", {}).get(role)
+        if want_target is not None and target is not want_target:
+            E.st.fail(f"target.update_args_online_then_target[{role}]", f"update writes {_nm(target)}, documented target is {_nm(want_target)}")
+        else:
+            E.st.ghost.setdefault("targets", {})[role] = target
+            E.st.ok(f"target.update_args_online_then_target[{role}]")
+        if doc["kind"] != kind:
+            E.st.fail(f"target.rule[{role}]", f"{kind} update where a {doc['kind']} update is documented")
+        elif kind == "soft":
+            want_tau = E.st.ghost["args"].get("tau")
+            same = tau is want_tau or (isinstance(tau, Sym) and isinstance(want_tau, Sym) and z3.eq(tau.z, want_tau.z))
+            (E.st.ok if same else E.st.fail)(f"target.rule[{role}]", *([] if same else [f"tau argument {tau!r}"]))
+        else:
+            E.st.ok(f"target.rule[{role}]")
+        key = f"$tu[{role}]"
+        E.log_write(env.name, key)
+        env.fields[key] = C.binop("+", env.fields.get(key, 0), 1)
+
+    def role_of(self, E, net):
+        for k, v in E.st.ghost["args"].items():
+            if v is net:
+                return k
+        # TD7: the online SALE policy is the wrapper around the online actor
+        if isinstance(net, Obj) and not isinstance(net.cls, str) and net.cls.qualname.endswith("DeterministicSALEPolicy"):
+            if net.fields.get("actor") is E.st.ghost["args"].get("actor"):
+                return "policy"
+        # sub-modules / wrappers: by object name
+        return _nm(net)
+
+    def expected_target_updates(self, E):
+        """ghost: called once per environment step (right after it); adds the
+        documented number of target updates for this step"""
+        if "C06" not in self.kinds or not self.cfg.cadence:
+            return
+        env = self.env(E)
+        s = self.step_index(E)
+        for role, doc in self.cfg.cadence.items():
+            key = f"$tx[{role}]"
+            cond = doc["when"](E, s)
+            times = doc.get("times", lambda E: 1)(E)
+            E.log_write(env.name, key)
+            env.fields[key] = C.binop("+", env.fields.get(key, 0), C.ite(cond, times, 0))
 
 
 def _nm(o):
@@ -221,6 +263,9 @@ def same_value(v, w):
 # ------------------------------------------------------------ env hooks
 def env_hook(E, kind, **kw):
     ck = E.shared.checker
+    if kind == "step.post":
+        ck.expected_target_updates(E)
+        return
     if kind == "step.pre":
         env = kw["env"]
         if "C11" in ck.kinds:
@@ -243,7 +288,7 @@ def env_hook(E, kind, **kw):
 class Cfg:
     def __init__(self, module, fn, discrete, counter="global_step", ret="global_step", episodes=True,
                  warmup=None, stubs=None, scen=None, pairs=None, loop=0, concrete=None, extra_loops=None,
-                 budget_from_zero=False, note=None):
+                 budget_from_zero=False, note=None, cadence=None, cands_extra=None):
         self.module = module
         self.fn = fn
         self.qual = f"{ALG}{module}.{fn}"
@@ -259,6 +304,8 @@ class Cfg:
         self.concrete = concrete or {}
         self.extra_loops = extra_loops or {}
         self.budget_from_zero = budget_from_zero
+        self.cadence = cadence
+        self.cands_extra = cands_extra
 
     def pair_names(self, E):
         out = set()
@@ -366,8 +413,39 @@ def make_cands(cfg):
             out.append(("episodes_done<total_episodes", B(C.compare("<", done, te))))
         if E.shared.budget is not None:
             out.append(("executed<=budget", B(C.compare("<=", executed, E.shared.budget))))
+        for k, v in list(L.frame.vars.items()):
+            if (isinstance(v, Sym) and v.z.sort() == INT) or (isinstance(v, int) and not isinstance(v, bool)):
+                out.append((f"{k}==episode_length", B(C.compare("==", v, env["$eplen"]))))
+            if (isinstance(v, Sym) and v.z.sort() == REAL) or isinstance(v, C.Fraction):
+                out.append((f"{k}==episode_return", B(C.compare("==", v, env["$epret"]))))
+        if cfg.cands_extra is not None:
+            for nm, z in cfg.cands_extra(L, executed):
+                out.append((nm, B(z)))
+        if "C06" in E.shared.checker.kinds:
+            for role in (cfg.cadence or {}):
+                out.append((f"target_updates[{role}]==documented", B(C.compare("==", env.get(f"$tu[{role}]", 0), env.get(f"$tx[{role}]", 0)))))
         return out
     return cand
+
+
+def loop_ordinal_containing_call(shared, qualname, callee):
+    """syntactic ordinal (as the executor numbers them) of the innermost loop of
+    `qualname` whose body calls `callee` - robust to renamed loop variables"""
+    from pyvc.interp import _loop_ordinals
+
+    mod, fn = qualname.rsplit(".", 1)
+    mi = shared.loader.load_module(mod)
+    node = [n for n in mi.tree.body if isinstance(n, ast.FunctionDef) and n.name == fn][0]
+    ords = _loop_ordinals(node)
+    best = None
+    for n in ast.walk(node):
+        if isinstance(n, (ast.For, ast.While)) and id(n) in ords:
+            calls = [c for c in ast.walk(n) if isinstance(c, ast.Call) and ((isinstance(c.func, ast.Name) and c.func.id == callee) or (isinstance(c.func, ast.Attribute) and c.func.attr == callee))]
+            if calls:
+                inner = [m for m in ast.walk(n) if m is not n and isinstance(m, (ast.For, ast.While)) and any(c in ast.walk(m) for c in calls)]
+                if not inner:
+                    best = ords[id(n)]
+    return best
 
 
 # ----------------------------------------------------------- task builder
@@ -380,6 +458,8 @@ def loop_task(cfg: Cfg, kinds, scen_name="", scen=None, with_logger=False):
         shared.roles = {}
         shared.loop_specs[(cfg.qual, cfg.loop)] = LoopSpec(cand=make_cands(cfg))
         for (q, o), spec in cfg.extra_loops.items():
+            if isinstance(o, str):
+                o = loop_ordinal_containing_call(shared, q, o)
             shared.loop_specs[(q, o)] = spec
         shared.stubs.update(common_stubs())
         shared.stubs.update(cfg.stubs)
@@ -404,6 +484,14 @@ def loop_task(cfg: Cfg, kinds, scen_name="", scen=None, with_logger=False):
         sh.total_episodes = args.get("total_episodes") if cfg.episodes else None
         sh.done0 = env.fields["$ndone"]
         ck = sh.checker
+        for role in (cfg.cadence or {}):
+            env.fields[f"$tu[{role}]"] = 0
+            env.fields[f"$tx[{role}]"] = 0
+        env.fields["$trained"] = 0
+        env.fields["$released"] = 0
+        E.st.ghost["epoch0"] = 0
+        if cfg.fn == "train_td7":
+            E.st.ghost["epoch0"] = C.smax(0, C.binop("-", sh.s0, args["learning_starts"]))
         result = E.call(cfg.qual, **args)
         executed = ck.executed(E)
         done = C.binop("-", env.fields["$ndone"], sh.done0)
@@ -422,7 +510,10 @@ def loop_task(cfg: Cfg, kinds, scen_name="", scen=None, with_logger=False):
         if "C01" in kinds:
             E.oblige("canary.c01.cur_is_initial", C.compare("==", env.fields["$nsteps"], env.fields["$n0"]), assume_after=False)
         if "C06" in kinds:
-            E.oblige("canary.c06", C.compare("==", executed, 0), assume_after=False)
+            for role in (cfg.cadence or {}):
+                E.oblige(f"target.cadence.changes_exactly_at_documented_points[{role}]",
+                         C.compare("==", env.fields.get(f"$tu[{role}]", 0), env.fields.get(f"$tx[{role}]", 0)))
+                E.oblige(f"canary.c06.never_updated[{role}]", C.compare("==", env.fields.get(f"$tu[{role}]", 0), 0), assume_after=False)
         if cfg.post is not None:
             cfg.post(E, ck, args, result, kinds)
         E.cover("end")
@@ -536,42 +627,129 @@ def _stub_ec(E, obj, name):
 CONFIGS = {}
 
 
+def _arg(E, n):
+    return E.st.ghost["args"][n]
+
+
+def cad_dqn_family():
+    when = lambda E, s: band(C.compare(">", s, _arg(E, "batch_size")), C.compare("==", C.binop("%", s, _arg(E, "target_update_frequency")), 0))  # noqa: E731
+    return {"q_net": dict(kind="hard", when=when)}
+
+
+def cad_every_gradient_step():
+    when = lambda E, s: C.compare(">=", s, _arg(E, "learning_starts"))  # noqa: E731
+    times = lambda E: _arg(E, "gradient_steps")  # noqa: E731
+    return {"policy": dict(kind="soft", when=when, times=times), "q": dict(kind="soft", when=when, times=times)}
+
+
+def cad_policy_delay():
+    when = lambda E, s: band(C.compare(">=", s, _arg(E, "learning_starts")), C.compare("==", C.binop("%", s, _arg(E, "policy_delay")), 0))  # noqa: E731
+    times = lambda E: _arg(E, "gradient_steps")  # noqa: E731
+    return {"policy": dict(kind="soft", when=when, times=times), "q": dict(kind="soft", when=when, times=times)}
+
+
+def cad_sac():
+    when = lambda E, s: band(C.compare(">=", s, _arg(E, "learning_starts")), C.compare("==", C.binop("%", s, _arg(E, "target_network_delay")), 0))  # noqa: E731
+    return {"q": dict(kind="soft", when=when)}
+
+
+def cad_mrq():
+    def when(E, s):
+        ls, s0, td = _arg(E, "learning_starts"), E.shared.s0, _arg(E, "target_delay")
+        epoch0 = C.smax(0, C.binop("-", s0, ls))
+        first = C.smax(s0, ls)
+        epoch = C.binop("+", epoch0, C.binop("+", C.binop("-", s, first), 1))
+        return band(C.compare(">=", s, ls), C.compare("==", C.binop("%", epoch, td), 0))
+    return {"policy_with_encoder": dict(kind="hard", when=when), "q": dict(kind="hard", when=when)}
+
+
 def reg(cfg):
     CONFIGS[cfg.fn] = cfg
     return cfg
 
 
 reg(Cfg("dqn", "train_dqn", True, episodes=False, warmup=_w_gt("batch_size")))
-reg(Cfg("nature_dqn", "train_nature_dqn", True, warmup=_w_gt("batch_size"), pairs=[("q_net", "q_target_net")]))
-reg(Cfg("ddqn", "train_ddqn", True, warmup=_w_gt("batch_size"), pairs=[("q_net", "q_target_net")]))
-reg(Cfg("per", "train_ddqn_per", True, ret=None, warmup=_w_gt("batch_size"), pairs=[("q_net", "q_target_net")]))
-reg(Cfg("ddpg", "train_ddpg", False, ret="steps_trained", warmup=_w_ge("learning_starts"), pairs=[("policy", "policy_target"), ("q", "q_target")]))
-reg(Cfg("td3", "train_td3", False, warmup=_w_ge("learning_starts"), pairs=[("policy", "policy_target"), ("q", "q_target")]))
-reg(Cfg("td3_lap", "train_td3_lap", False, episodes=False, warmup=_w_ge("learning_starts"), pairs=[("policy", "policy_target"), ("q", "q_target")]))
-reg(Cfg("sac", "train_sac", False, warmup=_w_ge("learning_starts"), pairs=[("q", "q_target")],
+reg(Cfg("nature_dqn", "train_nature_dqn", True, warmup=_w_gt("batch_size"), cadence=cad_dqn_family()))
+reg(Cfg("ddqn", "train_ddqn", True, warmup=_w_gt("batch_size"), cadence=cad_dqn_family()))
+reg(Cfg("per", "train_ddqn_per", True, ret=None, warmup=_w_gt("batch_size"), cadence=cad_dqn_family()))
+reg(Cfg("ddpg", "train_ddpg", False, ret="steps_trained", warmup=_w_ge("learning_starts"), cadence=cad_every_gradient_step()))
+reg(Cfg("td3", "train_td3", False, warmup=_w_ge("learning_starts"), cadence=cad_policy_delay()))
+reg(Cfg("td3_lap", "train_td3_lap", False, episodes=False, warmup=_w_ge("learning_starts"), cadence=cad_policy_delay()))
+reg(Cfg("sac", "train_sac", False, warmup=_w_ge("learning_starts"), cadence=cad_sac(),
         stubs={ALG + "sac.EntropyControl": entropy_control_stub}))
 
 
-reg(Cfg("td3_lap", "train_td3_lap", False, episodes=False, warmup=_w_ge("learning_starts"), pairs=[("policy", "policy_target"), ("q", "q_target")])) if False else None
-
 
 def _td7_train_step(E, *a, **k):
-    E.shared.checker.update(E, "td7-train-step")
+    ck = E.shared.checker
+    ck.update(E, "td7-train-step")
+    env = ck.env(E)
+    E.log_write(env.name, "$trained")
+    env.fields["$trained"] = C.binop("+", env.fields.get("$trained", 0), 1)
+    if "C15" in ck.kinds:
+        # the epoch handed to the training iteration counts released iterations
+        names, cl = _sig(E, ALG + "td7._train_step")
+        epoch = a[names.index("epoch")] if len(a) > names.index("epoch") else k.get("epoch")
+        E.oblige("release.epoch_counts_training_iterations", C.compare("==", epoch, C.binop("+", E.st.ghost["epoch0"], env.fields["$trained"])))
     return Anything("metrics-epochs")
 
 
 def _assess_stub(E, checkpoint_state, steps_per_episode, episode_return, epoch, *a, **k):
     """contract of assess_performance_and_checkpoint proved in C15: returns
     (update_checkpoint, training_steps) with training_steps >= 0"""
-    E.st.ghost.setdefault("assess_calls", []).append(dict(steps=steps_per_episode, ret=episode_return, epoch=epoch))
+    ck = E.shared.checker
+    env = ck.env(E)
+    if "C15" in ck.kinds:
+        E.oblige("assess.pre.called_when_episode_ended", C.unop("not", env.fields["$alive"]) if not isinstance(env.fields["$alive"], bool) else (not env.fields["$alive"]))
+        E.oblige("assess.pre.steps_of_the_episode_that_just_ended", C.compare("==", steps_per_episode, env.fields["$eplen"]))
+        E.oblige("assess.pre.return_of_the_episode_that_just_ended", C.compare("==", episode_return, env.fields["$epret"]))
+        E.oblige("assess.pre.epoch_is_training_iteration_count", C.compare("==", epoch, C.binop("+", E.st.ghost["epoch0"], env.fields.get("$trained", 0))))
     upd = E.st.fresh_sym("update_checkpoint", BOOL)
     tr = E.st.fresh_sym("training_steps", INT)
     E.assume(tr >= 0)
+    for key, inc in (("$released", tr), ("$tx[policy]", C.ite(upd, 1, 0))):
+        E.log_write(env.name, key)
+        env.fields[key] = C.binop("+", env.fields.get(key, 0), inc)
     return (upd, tr)
 
 
-reg(Cfg("td7", "train_td7", False, warmup=_w_ge("learning_starts"),
-        stubs={ALG + "td7._train_step": _td7_train_step, "rl_blox.blox.checkpointing.assess_performance_and_checkpoint": _assess_stub}))
+def _td7_role(E, net):
+    return None
+
+
+def _td7_inner(L):
+    """released training iterations: for delayed_train_step_idx in range(1, training_steps + 1)"""
+    E = L.E
+    env = E.heap["env"].fields
+    e0 = L.heap_entry["env"]
+    done = C.binop("-", L.it, L.lo)
+    out = [("trained==entry+iterations", C.compare("==", env.get("$trained", 0), C.binop("+", e0.get("$trained", 0), done)))]
+    if "epoch" in L.entry:
+        out.append(("epoch==entry+iterations", C.compare("==", L["epoch"], C.binop("+", L.entry["epoch"], done))))
+    return out
+
+
+def _td7_cands(L, executed):
+    E = L.E
+    env = E.heap["env"].fields
+    out = [("trained==released", C.compare("==", env.get("$trained", 0), env.get("$released", 0)))]
+    if "epoch" in L.entry and "epoch" in L.frame.vars:
+        out.append(("epoch==epoch0+trained", C.compare("==", L["epoch"], C.binop("+", L.entry["epoch"], env.get("$trained", 0)))))
+    return out
+
+
+def _td7_post(E, ck, args, result, kinds):
+    env = ck.env(E).fields
+    if "C15" in kinds:
+        E.oblige("release.training_iterations_equal_released_steps", C.compare("==", env.get("$trained", 0), env.get("$released", 0)))
+        E.oblige("canary.c15.nothing_trained", C.compare("==", env.get("$trained", 0), 0), assume_after=False)
+
+
+TD7 = reg(Cfg("td7", "train_td7", False, warmup=_w_ge("learning_starts"), cands_extra=_td7_cands,
+              cadence={"policy": dict(kind="hard", when=lambda E, s: False)},
+              extra_loops={(ALG + "td7.train_td7", "_train_step"): LoopSpec(inv=_td7_inner)},
+              stubs={ALG + "td7._train_step": _td7_train_step, "rl_blox.blox.checkpointing.assess_performance_and_checkpoint": _assess_stub}))
+TD7.post = _td7_post
 
 
 def _upd(what):
@@ -581,7 +759,17 @@ def _upd(what):
     return f
 
 
-reg(Cfg("mrq", "train_mrq", False, warmup=_w_ge("learning_starts"),
+def _mrq_cands(L, executed):
+    E = L.E
+    ls, s0 = _arg(E, "learning_starts"), E.shared.s0
+    if "epoch" not in L.frame.vars or "epoch" not in L.entry:
+        return []
+    step = C.binop("+", s0, executed)
+    trained = C.smax(0, C.binop("-", step, C.smax(s0, ls)))
+    return [("epoch==epoch0+training_iterations", C.compare("==", L["epoch"], C.binop("+", L.entry["epoch"], trained)))]
+
+
+reg(Cfg("mrq", "train_mrq", False, warmup=_w_ge("learning_starts"), cadence=cad_mrq(), cands_extra=_mrq_cands,
         stubs={"rl_blox.blox.embedding.model_based_encoder.update_model_based_encoder": _upd("encoder"),
                ALG + "mrq.update_critic_and_policy": _upd("critic-and-policy")}))
 
@@ -604,10 +792,83 @@ reg(Cfg("pets", "train_pets", False, counter=None, ret=None, episodes=False, war
                ALG + "pets.update_dynamics_model": _upd("dynamics-model")}))
 
 
+def td7_tasks(kinds):
+    out = []
+    if "C06" in kinds or "C15" in kinds:
+        out.append(loop_task(TD7, kinds, "use_checkpoints", {"use_checkpoints": True}))
+        out.append(loop_task(TD7, kinds, "use_checkpoints,episode-limit", {"use_checkpoints": True, "total_episodes": lambda E: E.int("total_episodes", 1)}))
+    if "C06" in kinds:
+        out.append(Task("td7._train_step", h_td7_train_step, setup=_td7_step_setup))
+    return out
+
+
+def _td7_step_setup(shared):
+    shared.checker = Checker(Cfg("td7", "_train_step", False), {"C06"})
+    shared.env_hooks = []
+    seq = []
+
+    def hard(E, net, target):
+        E.st.ghost.setdefault("hard_updates", []).append((net, target))
+
+    def upd(name, n=1):
+        return lambda E, *a, **k: (Anything(name) if n == 1 else tuple(Anything(f"{name}{i}") for i in range(n)))
+
+    shared.stubs.update({
+        "rl_blox.blox.target_net.hard_target_net_update": hard,
+        "rl_blox.blox.embedding.sale.update_sale": upd("embedding-loss"),
+        ALG + "td7.td7_update_critic": upd("critic", 3),
+        ALG + "td7.td7_update_actor": upd("actor-loss"),
+        "rl_blox.blox.replay_buffer.lap_priority": upd("priority"),
+    })
+
+
+def h_td7_train_step(E):
+    """TD7's training iteration: the four target copies happen iff epoch %
+    target_delay == 0, by hard copy, in the documented order (targets take the
+    online / fixed values before the fixed embedding takes the new embedding)"""
+    mod = lambda n: mk_stub_module(E, n)  # noqa: E731
+    embedding, critic, critic_target = mod("embedding"), mod("critic"), mod("critic_target")
+    policy, policy_target = mod("policy"), mod("policy_target")
+    for p in (policy, policy_target):
+        E.getattr(p, "actor")
+        E.getattr(p, "embedding")
+    vcs = E.call(ALG + "td7.ValueClippingState")
+    rb = Obj(STUB_BUFFER, {"$n": E.int("buffer.len0", 1)}, name="replay_buffer")
+    E.register(rb)
+    epoch = E.int("epoch", 1)
+    target_delay = E.int("target_delay", 1)
+    policy_delay = E.int("policy_delay", 1)
+    E.call(ALG + "td7._train_step", Anything("sample_target_actions"), embedding, mk_optimizer(E, "embedding_optimizer", embedding), critic, critic_target,
+           mk_optimizer(E, "critic_optimizer", critic), policy, policy_target, mk_optimizer(E, "actor_optimizer", policy.fields["actor"]), vcs, rb, epoch,
+           Anything("key"), Anything("rng"), E.real("gamma", 0, 1), E.int("batch_size", 1), policy_delay, target_delay, E.real("lap_alpha", 0), E.real("lap_min_priority", 0))
+    seq = E.st.ghost.get("hard_updates", [])
+    due = E.branch(C.compare("==", epoch % target_delay, 0))
+    want = [(policy.fields["actor"], policy_target.fields["actor"]), (critic, critic_target),
+            (policy.fields["embedding"], policy_target.fields["embedding"]), (embedding, policy.fields["embedding"])]
+    if due:
+        ok = len(seq) == 4 and set((id(a), id(b)) for a, b in seq) == set((id(a), id(b)) for a, b in want)
+        (E.st.ok if ok else E.st.fail)("td7.targets_copied_at_target_delay", *([] if ok else [f"{[( _nm(a), _nm(b)) for a, b in seq]}"]))
+        if ok:
+            order = [(id(a), id(b)) for a, b in seq]
+            i_ft = order.index((id(want[2][0]), id(want[2][1])))
+            i_f = order.index((id(want[3][0]), id(want[3][1])))
+            (E.st.ok if i_ft < i_f else E.st.fail)("td7.fixed_target_takes_fixed_before_fixed_takes_embedding", *([] if i_ft < i_f else ["order reversed"]))
+    else:
+        (E.st.ok if not seq else E.st.fail)("td7.no_target_change_between_update_points", *([] if not seq else [f"{len(seq)} copies off schedule"]))
+    E.oblige("canary.td7step", C.compare("==", epoch, 0), assume_after=False)
+
+
 def tasks_for(kinds, names=None):
     out = []
     for fn, cfg in CONFIGS.items():
         if names and fn not in names:
+            continue
+        if "C06" in kinds:
+            if not cfg.cadence or fn == "train_td7":
+                continue
+            # the inner gradient-step loop is unrolled for 1 and 2 gradient steps
+            out.append(loop_task(cfg, kinds, "gradient_steps=1", {"gradient_steps": 1}))
+            out.append(loop_task(cfg, kinds, "gradient_steps=2", {"gradient_steps": 2}))
             continue
         out.append(loop_task(cfg, kinds))
         if cfg.episodes:
